@@ -6,7 +6,8 @@ from engine.symrun.core import Explorer
 from .extract import (Ctx, Automaton, Schema, Intern, SymEnvDict, SymRLock, SymCondition, SymQueue, SymTime,
                       Cut, NewField, ModelError)
 
-KINDS = ['done', 'failed', 'raises', 'none', 'triple', 'bogus-status', 'update-not-a-mapping', 'update-empty-non-mapping']
+KINDS = ['done', 'failed', 'raises', 'none', 'triple', 'bogus-status', 'update-not-a-mapping', 'update-empty-non-mapping',
+         'non-final-status', 'own-entry-not-a-mapping', 'system-exit']
 
 
 class Payload:
@@ -61,6 +62,12 @@ def make_probe_tasks(names, ctx_ref, payloads, shared=False):
                 return upd_ok, 'bogus'
             if kind == 'update-empty-non-mapping':
                 return [], TaskStatus.DONE          # falsy, but not a mapping either
+            if kind == 'non-final-status':
+                return upd_ok, TaskStatus.WAITING   # a task status, but not one a finished task can have
+            if kind == 'own-entry-not-a-mapping':
+                return {self.name: 5}, TaskStatus.DONE
+            if kind == 'system-exit':
+                raise SystemExit(3)                 # e.g. user code calling sys.exit()
             return 42, TaskStatus.DONE
     return [ProbeTask(n, i) for i, n in enumerate(names)]
 
@@ -160,7 +167,7 @@ def extract(cfg, role, extra_fields=(), max_paths=200000):
             ctx.sync('begin', guard=lambda c: c.read_me('st'))
             try:
                 wt.run()
-            except Exception as e:       # noqa
+            except (Exception, SystemExit) as e:       # noqa  -- SystemExit: raised by a probe task (user code calling sys.exit())
                 ctx.finish('DEAD', type(e).__name__)
             else:
                 ctx.finish('END')
